@@ -134,3 +134,21 @@ contract(
     allocates=['La.R', 'La.V', 'Ll'],
     properties=['C03', 'C09', 'C01', 'C11'],
 )
+
+# ---- C07 / C17: which encoding characters an element works with.  Interface (the property is replaced in Message by
+# _get_encoding_chars, assumed above): the answer is ec_of(self); Element's own getter is proved against it - it asks its
+# parent, else its temporary parent, and only an element with neither reads the process-wide default, for ITS version.
+contract('hl7apy.core:Element.encoding_chars', sig={'self': 'Element'}, returns='dict[str]',
+         ensures=[('answer', 'result is ec_of(self)')], raises={}, raises_only=[], modifies=[],
+         interface=True, verify=False, properties=['C07', 'C17'],
+         notes='interface of the encoding_chars property; proved for Element under the [impl] key, assumed for Message '
+               '(Message._get_encoding_chars reads MSH-1 / MSH-2)')
+contract('hl7apy.core:Element.encoding_chars[impl]', sig={'self': 'Element'}, returns='dict[str]',
+         requires=['class_name_of(self) != "Message"'],
+         ensures=[('answer', 'result is ec_of(self)'),
+                  # C17: the process-wide default is what a detached element uses - and nothing else does
+                  ('detached_uses_default_of_its_version',
+                   'implies(self._parent is None and self._traversal_parent is None, '
+                   'result is (global_("hl7apy:_DEFAULT_ENCODING_CHARS_27") if strlen(self.version) > 0 and self.version >= "2.7" '
+                   'else global_("hl7apy:_DEFAULT_ENCODING_CHARS")))')],
+         raises={}, raises_only=[], modifies=[], exact_self=True, properties=['C07', 'C17', 'C06'])
